@@ -13,7 +13,10 @@ else
 fi
 cd /verif
 for p in "$@"; do
-  ./check "$p" --tier ${TIER:-quick} 2>&1 | grep -v "^KNOWN" | cut -c1-200 | tail -${TAILN:-3}
+  ./check "$p" --tier ${TIER:-quick} > /tmp/try_mutant.out 2>&1; rc=$?
+  grep "^VIOLATION" /tmp/try_mutant.out | cut -c1-200 | head -${TAILN:-2}
+  grep -v "^KNOWN\|^VIOLATION\|^MODEL-DRIFT" /tmp/try_mutant.out | cut -c1-260 | tail -1
+  echo "RESULT $p rc=$rc violations=$(grep -c '^VIOLATION' /tmp/try_mutant.out) drift=$(grep -c '^MODEL-DRIFT' /tmp/try_mutant.out)"
 done
 cd /repo && git checkout -q -- . && git clean -fdq >/dev/null 2>&1
 git status --short | head -3
